@@ -67,12 +67,182 @@ struct Ctx<'a> {
 impl<'a> Ctx<'a> {
     fn violation(&mut self, me: &ModelEvent, idx: u64, sig: &str, what: String) {
         let case = case_of(me, self.seed, self.section, idx);
+        // events of the escaped-key section: the file sink's signatures name how the key arrived
+        if let (Some(mode), Some(rest)) = (me.directed.as_deref().and_then(|d| d.strip_prefix("escaped-key:")), sig.strip_prefix("C13:file:")) {
+            let tail = match rest {
+                "line-malformed" | "not-an-object" => "line-malformed".to_string(),
+                "property-count:missing" | "unexpected-key" => "value-under-a-different-key".to_string(),
+                other => other.to_string(),
+            };
+            self.r.violation(&format!("C13:file:key-needs-escaping:{}:{}", mode, tail), &what, case);
+            return;
+        }
         self.r.violation(sig, &what, case);
     }
 }
 
+// ---------------------------------------------------------------------------
+// calendar reference, written from the Gregorian rules and deliberately naive: it shares nothing
+// with emit's `Timestamp::to_parts` / Display, so a calendar defect in emit cannot be on both
+// sides of the comparison
+// ---------------------------------------------------------------------------
+
+fn is_leap(y: u64) -> bool {
+    (y % 4 == 0 && y % 100 != 0) || y % 400 == 0
+}
+
+fn month_len(y: u64, m: u64) -> u64 {
+    match m {
+        1 | 3 | 5 | 7 | 8 | 10 | 12 => 31,
+        4 | 6 | 9 | 11 => 30,
+        _ => if is_leap(y) { 29 } else { 28 },
+    }
+}
+
+/// (year, month, day, hour, minute, second, nanos) of an instant given as unix nanoseconds.
+fn civil_of(nanos: u64) -> (u64, u64, u64, u64, u64, u64, u64) {
+    let (secs, ns) = (nanos / 1_000_000_000, nanos % 1_000_000_000);
+    let (mut days, sod) = (secs / 86_400, secs % 86_400);
+    let mut y = 1970;
+    while days >= if is_leap(y) { 366 } else { 365 } {
+        days -= if is_leap(y) { 366 } else { 365 };
+        y += 1;
+    }
+    let mut m = 1;
+    while days >= month_len(y, m) {
+        days -= month_len(y, m);
+        m += 1;
+    }
+    (y, m, days + 1, sod / 3600, sod / 60 % 60, sod % 60, ns)
+}
+
+/// Unix nanoseconds of a civil date-time (1970 and later).
+fn nanos_of_civil(y: u64, m: u64, d: u64, sod: u64, ns: u64) -> u64 {
+    let mut days = 0;
+    for yy in 1970..y {
+        days += if is_leap(yy) { 366 } else { 365 };
+    }
+    for mm in 1..m {
+        days += month_len(y, mm);
+    }
+    ((days + d - 1) * 86_400 + sod) * 1_000_000_000 + ns
+}
+
+/// The RFC 3339 text (nine fractional digits, as the file writer prints) of an instant.
 fn ts_text(nanos: u64) -> String {
-    vcommon::rec::ts_from_nanos(nanos).to_string()
+    let (y, m, d, h, mi, s, ns) = civil_of(nanos);
+    format!("{:04}-{:02}-{:02}T{:02}:{:02}:{:02}.{:09}Z", y, m, d, h, mi, s, ns)
+}
+
+/// Which calendar edge an instant sits on, if any (signature tag and evidence counter).
+fn edge_class(nanos: u64) -> Option<&'static str> {
+    let (y, m, d, ..) = civil_of(nanos);
+    let feb_end = (m == 2 && d == 28) || (m == 3 && d == 1);
+    let secs = nanos / 1_000_000_000;
+    Some(if m == 2 && d == 29 {
+        "leap-day"
+    } else if feb_end && is_leap(y) {
+        "next-to-leap-day"
+    } else if feb_end && y % 100 == 0 {
+        "century-non-leap-february-end"
+    } else if feb_end {
+        "non-leap-february-end"
+    } else if (m == 12 && d == 31) || (m == 1 && d == 1) {
+        "year-end"
+    } else if d == 1 || d == month_len(y, m) {
+        "month-end"
+    } else if [(1u64 << 31) - 1, 1 << 31, (1 << 32) - 1, 1 << 32].contains(&secs) {
+        "unix-seconds-32-bit-edge"
+    } else {
+        return None;
+    })
+}
+
+fn extent_edge_class(me: &ModelEvent) -> Option<&'static str> {
+    if me.wild.is_some() {
+        return None;
+    }
+    let (start, end) = me.eff_extent()?;
+    edge_class(end).or(start.and_then(edge_class))
+}
+
+/// Instants on calendar edges: 28 / 29 Feb / 1 Mar of leap years (divisible by 4, by 400), of
+/// ordinary and of century non-leap years, year ends, every month end of a leap and a non-leap
+/// year, each at 00:00:00, 12:00:00 and 23:59:59.999999999, plus the instants at which the unix
+/// seconds cross 2^31 and 2^32. All within u64 nanoseconds (before 2554).
+fn calendar_pool() -> Vec<u64> {
+    let mut dates: Vec<(u64, u64, u64)> = Vec::new();
+    for y in [1972, 1996, 2000, 2024, 2096, 2400] {
+        dates.extend([(y, 2, 28), (y, 2, 29), (y, 3, 1)]);
+    }
+    for y in [1970, 2023, 2100, 2101, 2200, 2300] {
+        dates.extend([(y, 2, 28), (y, 3, 1)]);
+    }
+    for y in [1970, 1999, 2000, 2024, 2099, 2100, 2400] {
+        dates.extend([(y, 1, 1), (y, 12, 31), (y + 1, 1, 1)]);
+    }
+    for y in [2024, 2025] {
+        for m in 1..=12 {
+            dates.extend([(y, m, 1), (y, m, month_len(y, m))]);
+        }
+    }
+    let mut out: Vec<u64> = Vec::new();
+    for (y, m, d) in dates {
+        for (sod, ns) in [(0, 0), (12 * 3600, 0), (86_399, 999_999_999)] {
+            out.push(nanos_of_civil(y, m, d, sod, ns));
+        }
+    }
+    for secs in [(1u64 << 31) - 1, 1 << 31, (1 << 32) - 1, 1 << 32] {
+        out.extend([secs * 1_000_000_000, secs * 1_000_000_000 + 999_999_999]);
+    }
+    out.sort();
+    out.dedup();
+    out
+}
+
+/// Move the event onto a calendar edge: a point extent (or the runtime's clock reading) becomes
+/// the edge instant; a range keeps its length and ends at the edge, starts at it, or straddles it
+/// (a span crossing midnight into a leap day). The clock moves along.
+fn move_to_edge(g: &mut Rng, me: &mut ModelEvent, edge: u64) {
+    if me.wild.is_some() {
+        return;
+    }
+    match me.extent {
+        Some((Some(start), end)) => {
+            let len = end - start;
+            let new_start = match g.below(3) {
+                0 if edge >= len => edge - len,
+                1 if edge >= len / 2 + 1 => edge - len / 2 - 1,
+                _ => edge,
+            };
+            let new_end = new_start + len;
+            if let Some(c) = me.clock {
+                me.clock = Some((c as i128 + new_end as i128 - end as i128).max(0) as u64);
+            }
+            me.extent = Some((Some(new_start), new_end));
+        }
+        Some((None, end)) => {
+            if let Some(c) = me.clock {
+                me.clock = Some((c as i128 + edge as i128 - end as i128).max(0) as u64);
+            }
+            me.extent = Some((None, edge));
+        }
+        None => {
+            if me.clock.is_some() {
+                me.clock = Some(edge);
+            }
+        }
+    }
+}
+
+/// One event in eight of the sections that draw ordinary events sits on a calendar edge.
+fn maybe_calendar_edge(seed: u64, i: u64, me: &mut ModelEvent, always: bool) {
+    let mut g = Rng::stream(seed, &[13, 9, i]);
+    if always || g.chance(1, 8) {
+        let pool = calendar_pool();
+        let edge = if always { pool[(i as usize) % pool.len()] } else { *g.pick(&pool) };
+        move_to_edge(&mut g, me, edge);
+    }
 }
 
 /// Value-class tag for signatures (never random data).
@@ -147,6 +317,63 @@ fn emit_through<E: Emitter, F: emit::Filter, C: emit::Ctxt + Copy, T: emit::Cloc
     });
 }
 
+/// Property keys that need JSON escaping (quotes, backslashes, control characters), as `'static`
+/// strs, so that `Str::get_static()` is `Some` when they arrive as static keys.
+const ESC_KEYS: &[&str] = &["http.request.header.\"x-request-id\"", "C:\\temp\\new", "line\nbreak", "tab\tkey", "ctl\u{1}key", "q\"and\\slash/"];
+
+/// The escaped-key section's own delivery: the model's key reaches the sink as a static key of a
+/// macro call site (`#[emit::key(..)]`), as `Str::new(..)` on hand-built props, or inherited from
+/// a `ThreadLocalCtxt` frame it was pushed on as a static key. (`non-static` takes the usual path.)
+fn emit_escaped_key<E: Emitter>(sink: &E, me: &ModelEvent, mode: &str) {
+    let key_prop = me.effective().find(|p| ESC_KEYS.contains(&p.key.as_str())).expect("escaped key");
+    let which = ESC_KEYS.iter().position(|k| *k == key_prop.key).unwrap();
+    let key: &'static str = ESC_KEYS[which];
+    let a = match &key_prop.model {
+        M::I64(x) => *x,
+        other => unreachable!("{:?}", other),
+    };
+    let vid: &str = &me.vid;
+    let ts = me.emit_extent();
+    let ctxt = Tlc::new();
+    let rt = emit::runtime::Runtime::build(sink, emit::Empty, &ctxt, emit::Empty, emit::Empty);
+    match mode {
+        "static-key-macro" => match which {
+            0 => emit::emit!(rt, extent: ts, "{vid} escaped key", vid, #[emit::key("http.request.header.\"x-request-id\"")] k: a, after: 1i32),
+            1 => emit::emit!(rt, extent: ts, "{vid} escaped key", vid, #[emit::key("C:\\temp\\new")] k: a, after: 1i32),
+            2 => emit::emit!(rt, extent: ts, "{vid} escaped key", vid, #[emit::key("line\nbreak")] k: a, after: 1i32),
+            3 => emit::emit!(rt, extent: ts, "{vid} escaped key", vid, #[emit::key("tab\tkey")] k: a, after: 1i32),
+            4 => emit::emit!(rt, extent: ts, "{vid} escaped key", vid, #[emit::key("ctl\u{1}key")] k: a, after: 1i32),
+            _ => emit::emit!(rt, extent: ts, "{vid} escaped key", vid, #[emit::key("q\"and\\slash/")] k: a, after: 1i32),
+        },
+        "static-key-ambient" => {
+            let frame = emit::Frame::push(&ctxt, [(emit::Str::new(key), emit::Value::from(a))]);
+            frame.call(|| emit::emit!(rt, extent: ts, "{vid} escaped key", vid, after: 1i32));
+        }
+        _ => {
+            let props = [(emit::Str::new("vid"), emit::Value::from(vid)), (emit::Str::new(key), emit::Value::from(a)), (emit::Str::new("after"), emit::Value::from(1i32))];
+            let parts = [emit::template::Part::hole("vid"), emit::template::Part::text(" escaped key")];
+            sink.emit(emit::Event::new(emit::Path::new_raw("c13"), emit::Template::new_ref(&parts), ts, &props[..]));
+        }
+    }
+}
+
+/// The model of event `i` of the escaped-key section.
+fn escaped_key_event(seed: u64, i: u64) -> ModelEvent {
+    const MODES: [&str; 4] = ["static-key", "static-key-macro", "static-key-ambient", "non-static-key"];
+    let key = ESC_KEYS[i as usize % ESC_KEYS.len()];
+    let mode = MODES[i as usize / ESC_KEYS.len() % MODES.len()];
+    let vid = format!("v{}-escaped-key-{}", seed, i);
+    let keyp = Prop::new(key, M::I64(i as i64 - 7), Cap::Typed);
+    let mut props = vec![Prop::new("vid", M::Str(vid.clone()), Cap::Typed), Prop::new("after", M::I32(1), Cap::Typed)];
+    let mut ambient = Vec::new();
+    if mode == "static-key-ambient" {
+        ambient.push(vec![keyp]);
+    } else {
+        props.insert(1, keyp);
+    }
+    ModelEvent { vid: vid.clone(), mdl: "c13".into(), parts: vec![(true, "vid".into()), (false, " escaped key".into())], extent: Some((None, BASE_NANOS + 950_000_000_000 + i)), props, kind: Kind::Log, directed: Some(format!("escaped-key:{}", mode)), ambient, clock: None, wild: None, macro_site: None }
+}
+
 /// Hand every event to `sink`, each under `catch_unwind`. With `via_rt` the events go through a
 /// statically typed `Runtime` (even indices) or through the type-erased runtime of an initialised
 /// `AmbientSlot` (odd indices), both with the sink as emitter, a `ThreadLocalCtxt` holding the
@@ -155,7 +382,11 @@ fn deliver<E: Emitter + Send + Sync + 'static>(sink: std::sync::Arc<E>, via_rt: 
     if !via_rt {
         for (n, (idx, me)) in events.iter().enumerate() {
             before(*idx);
-            after(n, catch(|| me.with_event(|evt| sink.emit(evt))), Vec::new());
+            let res = match me.directed.as_deref().and_then(|d| d.strip_prefix("escaped-key:")) {
+                Some(mode) if mode != "non-static-key" => catch(|| emit_escaped_key(&*sink, me, mode)),
+                _ => catch(|| me.with_event(|evt| sink.emit(evt))),
+            };
+            after(n, res, Vec::new());
         }
         return;
     }
@@ -257,7 +488,13 @@ fn check_file_line(cx: &mut Ctx, me: &ModelEvent, idx: u64, line: &str) {
             Some(w) => n == 1 && got.as_deref() == Some(w.as_str()),
         };
         if !ok {
-            cx.violation(me, idx, &format!("C13:file:fixed-field:{}", k), format!("field {} appears {} times with value {:?}, expected {:?}", k, n, got, want));
+            // a timestamp text that denotes another instant than the event's (expected text from the
+            // harness' own calendar), named by the calendar edge the instant sits on
+            let edge = if k == "ts" { me.eff_extent().and_then(|(_, e)| edge_class(e)) } else if k == "ts_start" { me.eff_extent().and_then(|(s, _)| s).and_then(edge_class) } else { None };
+            match (edge, me.wild.is_none() && want.is_some() && n == 1) {
+                (Some(class), true) => cx.violation(me, idx, &format!("C13:file:timestamp-text-differs-from-the-instant:{}", class), format!("field {} is {:?} but the event's instant is {:?} (calendar reference independent of emit)", k, got, want)),
+                _ => cx.violation(me, idx, &format!("C13:file:fixed-field:{}", k), format!("field {} appears {} times with value {:?}, expected {:?}", k, n, got, want)),
+            }
         }
     }
     // every other property exactly once with its first value
@@ -1557,6 +1794,7 @@ fn term_child(seed: u64, section: &str, from: u64, to: u64, compound: bool) {
 fn run_term(cx: &mut Ctx, events: &[(u64, ModelEvent)], from: u64, to: u64, compound: bool) {
     let exe = std::env::current_exe().expect("current exe");
     let out = Command::new(exe)
+        .env("TZ", "UTC")
         .args(["--term-child", "1", "--seed", &cx.seed.to_string(), "--section", cx.section, "--from", &from.to_string(), "--to", &to.to_string(), "--compound", if compound { "1" } else { "0" }])
         .output();
     let out = match out {
@@ -1642,6 +1880,17 @@ fn run_term(cx: &mut Ctx, events: &[(u64, ModelEvent)], from: u64, to: u64, comp
         if hostile {
             cx.r.observe("term:messages-with-hostile-hole-text", 1);
         }
+        // the instant: emit_term prints the local time of day (`time` crate; the child runs with
+        // TZ=UTC) or, when the local offset is unavailable, the RFC 3339 text to the second
+        if let (None, Some((_, end))) = (me.wild, me.eff_extent()) {
+            cx.r.observe("term:timestamp-comparisons", 1);
+            let (y, mo, d, h, mi, s, ns) = civil_of(end);
+            let local = format!("{:02}:{:02}:{:02}.{:03}", h, mi, s, ns / 1_000_000);
+            let full = format!("{:04}-{:02}-{:02}T{:02}:{:02}:{:02}Z", y, mo, d, h, mi, s);
+            if !body.contains(&local) && !body.contains(&full) {
+                cx.violation(me, *idx, &format!("C13:term:timestamp-text-differs-from-the-instant:{}", edge_class(end).unwrap_or("ordinary")), format!("terminal output {:?} shows neither {:?} nor {:?}", clip(body), local, full));
+            }
+        }
         let msg = me.msg_text();
         if me.failing_hole() {
             // the message itself cannot be rendered: only "no panic" is required
@@ -1705,7 +1954,24 @@ fn section_events(seed: u64, section: &str, from: u64, to: u64, compound: bool) 
         "rt" => (from..to)
             .map(|i| {
                 let mut g = Rng::stream(seed, &[13, 2, i]);
-                (i, gen_rt_event(&mut g, seed, section, i))
+                let mut me = gen_rt_event(&mut g, seed, section, i);
+                maybe_calendar_edge(seed, i, &mut me, false);
+                (i, me)
+            })
+            .collect(),
+        // keys that need JSON escaping, arriving as static / non-static / inherited keys
+        "escaped-key" => (from..to).map(|i| (i, escaped_key_event(seed, i))).collect(),
+        // every calendar-edge instant of the pool, on events of every kind: as point extents, as
+        // the clock's reading, as range ends / starts and inside ranges
+        "calendar" => (from..to)
+            .map(|i| {
+                let mut g = Rng::stream(seed, &[13, 8, i]);
+                let mut me = gen_event(&mut g, seed, section, i, false);
+                if me.extent.is_none() {
+                    me.extent = Some((None, BASE_NANOS));
+                }
+                maybe_calendar_edge(seed, i, &mut me, true);
+                (i, me)
             })
             .collect(),
         // the smallest reproduction of the failing-value defect: before / failing / after
@@ -1742,7 +2008,9 @@ fn section_events(seed: u64, section: &str, from: u64, to: u64, compound: bool) 
         _ => (from..to)
             .map(|i| {
                 let mut g = Rng::stream(seed, &[13, 1, i]);
-                (i, gen_event(&mut g, seed, section, i, compound))
+                let mut me = gen_event(&mut g, seed, section, i, compound);
+                maybe_calendar_edge(seed, i, &mut me, false);
+                (i, me)
             })
             .collect(),
     }
@@ -1785,6 +2053,12 @@ fn run_batch(r: &mut Report, collector: &Collector, root: &str, seed: u64, secti
                 _ => "range",
             };
             cx.r.observe(&format!("wild:{}:{:?}", class, me.kind), 1);
+        }
+        if let Some(mode) = me.directed.as_deref().and_then(|d| d.strip_prefix("escaped-key:")) {
+            cx.r.observe(&format!("escaped-key:{}", mode), 1);
+        }
+        if let Some(class) = extent_edge_class(me) {
+            cx.r.observe(&format!("calendar-edge:{}:{}", class, if me.is_range() { "range" } else { "point" }), 1);
         }
         if me.props.len() > 2 {
             cx.r.nontrivial(&sig);
@@ -1903,6 +2177,19 @@ fn main() {
     par_cases(&mut r, &args, batches4, |b, r| {
         run_batch(r, &collector, &root, seed, "wild", b * batch, ((b + 1) * batch).min(n4), false, &sinks, dump);
     });
+
+    // 8. every calendar-edge instant (leap days and their neighbours, century years, year and month
+    //    ends, 32-bit second boundaries) on events of every kind, three events per instant
+    let n7 = args.get_u64("calendar-events", 3 * calendar_pool().len() as u64 * args.n(1, 4));
+    let batches7 = (n7 + batch - 1) / batch;
+    par_cases(&mut r, &args, batches7, |b, r| {
+        run_batch(r, &collector, &root, seed, "calendar", b * batch, ((b + 1) * batch).min(n7), false, &sinks, dump);
+    });
+
+    // 9. property keys that need JSON escaping x how the key arrives (static on hand-built props,
+    //    static from a macro call site, inherited from a context frame, non-static)
+    let n8 = args.get_u64("escaped-key-events", (ESC_KEYS.len() * 4 * 4) as u64);
+    run_batch(&mut r, &collector, &root, seed, "escaped-key", 0, n8, false, &sinks, dump);
 
     // 7. values whose formatting fails part-way, between ordinary events of the same batch
     let n6 = args.get_u64("failing-events", args.n(2_000, 120_000));
